@@ -479,7 +479,7 @@ func pureScenarios(c *CheckRun) []*Scenario {
 	for _, p := range []int{mp + 1, mp + 3} {
 		base := [][2]int{{opInsert, aSpec(p, 1)}, {opInsert, aSpec(p, 1)}}
 		for _, pos := range []int{mp, p - 1, 0, mp - 1} {
-			for _, w := range []int{6, 0} {
+			for _, w := range []int{6, 0, 3} {
 				s := histB{kind: kindAlphaB, mask: ckPure, ops: base, extra: []int{w, aSpecMut(p, 1, pos), 0}, label: fmt.Sprintf("long path p=%d, key differing at %d", p, pos)}.scn()
 				s.MayBeVacuous = true
 				out = append(out, s)
